@@ -331,7 +331,7 @@ func c06(ctx *core.Ctx) {
 	quietLogs()
 	ctx.Rule("generated configurations: 0-5 container filters, two WebServices with 0-3 service filters and two routes with 0-3 route filters each, behaviour per filter in {pass, set attribute, replace Request, replace Response, replace http.Request, HttpMiddlewareHandlerToFilter around a wrapping middleware, set ResponseWriter}; any filter short-circuits on demand of the request. 40-request sequences (routed, 404/405 routing failures, HandleWithFilter) run sequentially on one container and then from 16 goroutines (race detector on). Offline checker per request: exact enter/pass/exit sequence = prefix of [container.., service.., route.., handler] with reversed exits, each once, hand-over identity of (Request, Response, http.Request, writer, attributes). Non-trivial = a request whose chain has >= 2 elements; distinct by (filter counts per level, short-circuit position, request kind, behaviours on the path).")
 	ctx.Assume("a filter that replaces the Request copies the attributes it knows about (the API offers no enumeration)")
-	configs := ctx.N(250, 5000)
+	configs := ctx.N(250, 20000)
 	for ci := 0; ci < configs; ci++ {
 		if ctx.Skip(ci) {
 			continue
